@@ -406,3 +406,61 @@ func TestRegressWrongSignature(t *testing.T) {
 		}
 	}
 }
+
+// propTwoResources: the same controller type registered as two resources under two base paths (two API versions, each
+// with its own controller instance).  Every Resource call registers its own table: each base serves exactly the
+// documented rows, bound to the instance given for THAT base, with that instance's Uses() middleware.
+func propTwoResources(t *rapid.T) {
+	ev.Case()
+	bits := rapid.IntRange(1, 127).Draw(t, "actions")
+	uses := rapid.Bool().Draw(t, "hasUses")
+	bases := rapid.SliceOfNDistinct(rapid.SampledFrom([]string{"/v1/", "/v2/", "/api/v3/", "/Admin/"}), 2, 2, rapid.ID[string]).Draw(t, "bases")
+	usesFor := map[string]bool{}
+	if uses {
+		for _, a := range rapid.SliceOfNDistinct(rapid.SampledFrom(actions), 0, 4, rapid.ID[string]).Draw(t, "usesFor") {
+			usesFor[a] = true
+		}
+	}
+	var opts []func(*rux.Router)
+	if rapid.IntRange(0, 2).Draw(t, "caching") == 0 {
+		opts = append(opts, rux.CachingWithNum(uint16(rapid.IntRange(1, 2).Draw(t, "cacheCap"))))
+	}
+	r := rux.New(opts...)
+	var cfgs []config
+	var insts []int
+	for _, bp := range bases {
+		c := config{bits: bits, uses: uses, basePath: bp, usesFor: usesFor}
+		curInst++
+		b := base{inst: curInst}
+		if uses {
+			b.uses = map[string][]rux.HandlerFunc{}
+			for a := range usesFor {
+				b.uses[a] = []rux.HandlerFunc{mw("uses:" + a)}
+			}
+		}
+		r.Resource(bp, newController(bits, uses, b))
+		cfgs, insts = append(cfgs, c), append(insts, curInst)
+	}
+	last := curInst
+	defer func() { curInst = last }()
+	id := rapid.StringMatching(`[a-z0-9]{1,4}`).Draw(t, "id")
+	for round := 0; round < 2; round++ {
+		for i, c := range cfgs {
+			curInst = insts[i] // the instance checkProbe expects behind this base
+			for _, p := range probePaths(c, id) {
+				for _, m := range model.Methods {
+					ev.Eval()
+					if msg := checkProbe(r, c, m, p); msg != "" {
+						t.Fatalf("two resources of one controller type under %v; the one under %q: %s", bases, c.basePath, msg)
+					}
+				}
+			}
+		}
+	}
+	ev.Class("two-resources-of-one-controller-type")
+	ev.NonTrivial(fmt.Sprint(bits, uses, bases, usesFor), func() string {
+		return fmt.Sprintf("controller c%03d uses=%v under %v", bits, uses, bases)
+	})
+}
+
+func TestPropTwoResources(t *testing.T) { rapid.Check(t, propTwoResources) }
